@@ -468,6 +468,13 @@ def _e_predictions(chk):
     got = to_obj_array(pr.attrs["prediction"])
     chk.check(all(sp.simplify(S(got[i]) - (rl[i] + tan[i] * ds)) == 0 for i in range(3)), "C13.e", f"{SC}::_SecantStep.predict",
               f"secant prediction is not r_last + tangent*||step||: {list(got)}", sample="pred = r_last + tangent * ||step||")
+    # a one-parameter family hands a 1-element step array: the arc length is its norm |s0| whatever the sign of s0
+    st1 = to_obj_array([sp.Symbol("s0", real=True)])
+    pr1 = Interp().apply(Interp().getattr(sec, "predict"), [sp.Symbol("last"), st1], {})
+    got1 = to_obj_array(pr1.attrs["prediction"])
+    chk.check(all(sp.simplify(S(got1[i]) - (rl[i] + tan[i] * sp.Abs(st1[0]))) == 0 for i in range(3)), "C13.e", f"{SC}::_SecantStep.predict[one parameter]",
+              f"with a 1-element step the secant prediction is not r_last + tangent*|step| (a negative step would walk backwards along the secant): {list(got1)}",
+              sample="pred = r_last + tangent * |s0| for step = [s0], s0 of either sign")
     sec0 = SymObj(ClassRef(smod, scls), {"_repr_fn": lambda v: rl, "_tangent_provider": lambda: None}, "sec")
     pr0 = Interp().apply(Interp().getattr(sec0, "predict"), [sp.Symbol("last"), sp.Symbol("ds", positive=True)], {})
     g0 = to_obj_array(pr0.attrs["prediction"])
